@@ -259,3 +259,151 @@ func DrainHeld(p core.Provider, max, hold int, deadline time.Duration, observe f
 	defer mu.Unlock()
 	return res, obsErr
 }
+
+// LiveResult is what DrainLive saw.
+type LiveResult struct {
+	Taken       int   // ammo acquired by the live consumers (before and after the stop)
+	LateTaken   int   // ammo acquired by the late consumers (residue of a buffered queue)
+	RunErr      error // what Run returned
+	SelfStopped bool  // Run returned before the context was cancelled (own failure or own bounds)
+	// Hung is non-empty when somebody stayed blocked: Run after the cancel, live consumers after Run returned, or
+	// late consumers that entered Acquire only after Run had returned.
+	Hung string
+}
+
+// DrainLive is the drain in which nobody stops acquiring by itself: `consumers` goroutines loop Acquire/Release until
+// Acquire answers ok=false. When cancelAfter ammo have been taken in total (and `settle` has passed) the context is
+// cancelled while those consumers are still in, or about to enter, Acquire - unless Run has returned by itself before
+// that (decode failure, own bounds). After Run returned, all live consumers must come to ok=false; then `late` more
+// consumers are started, which call Acquire only after Run has returned, and must come to ok=false as well (whatever a
+// buffered queue still held is counted in LateTaken). Nothing is asserted here about how many ammo are delivered.
+// A consumer that stays blocked cannot be released by the harness: its goroutine is left behind and reported in Hung.
+func DrainLive(p core.Provider, cancelAfter, consumers, late int, deadline, settle time.Duration) (LiveResult, error) {
+	ctx, cancel := context.WithCancel(context.Background())
+	defer cancel()
+	runDone := make(chan error, 1)
+	go func() {
+		defer func() {
+			if r := recover(); r != nil {
+				runDone <- fmt.Errorf("panic in provider.Run: %v", r)
+			}
+		}()
+		runDone <- p.Run(ctx, core.ProviderDeps{Log: pand.NopLog(), PoolID: "verif"})
+	}()
+	if consumers < 1 {
+		consumers = 1
+	}
+	var mu sync.Mutex
+	var panicErr error
+	var res LiveResult // Taken / LateTaken are written under mu by consumers that may outlive this call: copy under mu
+	snap := func() LiveResult {
+		mu.Lock()
+		defer mu.Unlock()
+		return res
+	}
+	set := func(f func(r *LiveResult)) {
+		mu.Lock()
+		defer mu.Unlock()
+		f(&res)
+	}
+	reached := make(chan struct{})
+	var reachedOnce sync.Once
+	loop := func(isLate bool, wg *sync.WaitGroup) {
+		defer wg.Done()
+		defer func() {
+			if r := recover(); r != nil {
+				mu.Lock()
+				if panicErr == nil {
+					panicErr = fmt.Errorf("panic in Acquire/Release: %v", r)
+				}
+				mu.Unlock()
+			}
+		}()
+		for {
+			a, ok := p.Acquire()
+			if !ok {
+				return
+			}
+			hit := false
+			mu.Lock()
+			if isLate {
+				res.LateTaken++
+			} else {
+				res.Taken++
+				hit = res.Taken >= cancelAfter
+			}
+			mu.Unlock()
+			p.Release(a)
+			if hit {
+				reachedOnce.Do(func() { close(reached) })
+			}
+		}
+	}
+	var live sync.WaitGroup
+	for c := 0; c < consumers; c++ {
+		live.Add(1)
+		go loop(false, &live)
+	}
+	liveDone := make(chan struct{})
+	go func() { live.Wait(); close(liveDone) }()
+
+	// phase 1: until cancelAfter ammo were taken, or Run returned by itself
+	runReturned, starved := false, false
+	select {
+	case <-reached:
+		if settle > 0 {
+			time.Sleep(settle)
+		}
+	case e := <-runDone:
+		runReturned = true
+		set(func(r *LiveResult) { r.RunErr, r.SelfStopped = e, true })
+	case <-time.After(deadline):
+		starved = true
+		set(func(r *LiveResult) {
+			r.Hung = fmt.Sprintf("only %d ammo delivered to %d consumers within %v while the provider was running", r.Taken, consumers, deadline)
+		})
+	}
+	cancel()
+	// phase 2: Run returns
+	if !runReturned {
+		select {
+		case e := <-runDone:
+			set(func(r *LiveResult) { r.RunErr = e })
+		case <-time.After(deadline):
+			return snap(), fmt.Errorf("provider.Run did not return within %v after cancel", deadline)
+		}
+	}
+	if starved {
+		return snap(), nil
+	}
+	// phase 3: consumers that were acquiring all along come to end of ammo
+	select {
+	case <-liveDone:
+	case <-time.After(deadline):
+		set(func(r *LiveResult) {
+			r.Hung = fmt.Sprintf("provider.Run has returned (%v), but consumers that were acquiring when it stopped are still blocked in Acquire %v later (%d ammo taken)", r.RunErr, deadline, r.Taken)
+		})
+		return snap(), nil
+	}
+	// phase 4: consumers that enter Acquire only now
+	if late > 0 {
+		var lw sync.WaitGroup
+		for c := 0; c < late; c++ {
+			lw.Add(1)
+			go loop(true, &lw)
+		}
+		lateDone := make(chan struct{})
+		go func() { lw.Wait(); close(lateDone) }()
+		select {
+		case <-lateDone:
+		case <-time.After(deadline):
+			set(func(r *LiveResult) {
+				r.Hung = fmt.Sprintf("provider.Run has returned (%v), but %d consumer(s) calling Acquire afterwards are still blocked %v later instead of seeing end of ammo", r.RunErr, late, deadline)
+			})
+			return snap(), nil
+		}
+	}
+	mu.Lock()
+	defer mu.Unlock()
+	return res, panicErr
+}
